@@ -260,6 +260,8 @@ E_SEEDS = {
     "2.x": [
         # a file with an import: mutations of the module name give syntactically valid imports of missing modules
         'import core\n\nflow main\n  user said "hi"\n  bot say "yo"\n',
+        # the same module imported twice in one file
+        'import core\nimport core\n\nflow main\n  user said "hi"\n',
         'flow main\n  match UtteranceUserActionFinished(final_transcript="hi")\n  send StartUtteranceBotAction(script="yo") as $r\n',
         "flow a $x $y=2 -> $z\n  if $x > 1:\n    $z = $x + $y\n  elif $x\n    abort\n  else\n    return 3\n",
         'flow b\n  when A() or B(x=1)\n    start c as $c\n  or when D().Finished() as $e\n    stop $c\n  else\n    pass\n',
